@@ -48,6 +48,16 @@ EXTRAS = [
     # observed dist on a weak var parameterised by its own parent; parameter dist with per_obs off
     {"items": [{"kind": "var"}, {"kind": "wvar", "inputs": [0]}, {"kind": "dist", "var": 1, "inputs": [0], "flag": "observed"}]},
     {"items": [{"kind": "var"}, {"kind": "value"}, {"kind": "dist", "var": 0, "inputs": [1], "flag": "parameter", "per_obs": False}]},
+    # argument ORDER matters for traversals: t = h(b, a) with b = g(a)
+    {"items": [{"kind": "var"}, {"kind": "calc", "inputs": [0]}, {"kind": "calc", "inputs": [1]}, {"kind": "calc", "inputs": [2, 1]}]},
+    {"items": [{"kind": "value"}, {"kind": "calc", "inputs": [0]}, {"kind": "wvar", "inputs": [1]}, {"kind": "tcalc", "inputs": [2, 1]}, {"kind": "calc", "inputs": [3, 0]}]},
+    # keyword inputs (cached calc behind a keyword of a transient / cached node)
+    {"items": [{"kind": "var"}, {"kind": "calc", "inputs": [0]}, {"kind": "tcalc", "inputs": [1], "kw": [True]}, {"kind": "calc", "inputs": [2]}]},
+    {"items": [{"kind": "value"}, {"kind": "calc", "inputs": [0]}, {"kind": "calc", "inputs": [1, 0], "kw": [False, True]}, {"kind": "tcalc", "inputs": [0, 2], "kw": [True, True]}]},
+    # transient dist on a weak var (its `at` proxies a cached calc), keyword parameter
+    {"items": [{"kind": "var"}, {"kind": "wvar", "inputs": [0]}, {"kind": "tdist", "var": 1, "inputs": [0]}]},
+    {"items": [{"kind": "var"}, {"kind": "value"}, {"kind": "wvar", "inputs": [0]}, {"kind": "tdist", "var": 2, "inputs": [1], "kw": True}, {"kind": "calc", "inputs": [3]}]},
+    {"items": [{"kind": "var"}, {"kind": "value"}, {"kind": "calc", "inputs": [1]}, {"kind": "dist", "var": 0, "inputs": [2], "kw": True}]},
     # update_on_init False
     {"items": [{"kind": "value"}, {"kind": "calc", "inputs": [0], "update_on_init": False}, {"kind": "calc", "inputs": [1, 1], "update_on_init": False}]},
 ]
@@ -59,7 +69,7 @@ def units(tier, seed):
         # quick: all programs with <= 3 items; of the 4-item ones every 6th (the list is
         # sorted, so the stride cuts across all kind combinations); thorough runs all of
         # them and the 5-item programs with one input
-        progs = [p for idx, p in enumerate(progs) if len(p["items"]) <= 3 or idx % 6 == 0]
+        progs = [p for idx, p in enumerate(progs) if len(p["items"]) <= 3 or idx % 9 == 0]
     else:
         progs = [p for idx, p in enumerate(progs) if len(p["items"]) <= 4 or sum(1 for it in p["items"] if it["kind"] in ("value", "var")) == 1 and idx % 5 == 0]
     progs = EXTRAS + progs
@@ -101,12 +111,12 @@ class Machine:
             s = {i}
             for j in it.get("inputs", []):
                 s |= self.anc_items[j]
-            if it["kind"] == "dist":
+            if it["kind"] in ("dist", "tdist"):
                 s |= self.anc_items[it["var"]]
             self.anc_items.append(s)
         self.flags = {}
         for i, it in enumerate(self.items):
-            if it["kind"] == "dist":
+            if it["kind"] in ("dist", "tdist"):
                 self.flags[i] = it.get("flag")
         self.keys = {1: jax.random.PRNGKey(1), 2: jax.random.PRNGKey(2)}
 
@@ -247,7 +257,7 @@ class Machine:
         # O4: at most once, and only if dirty
         self.dirty = dirty_before
         for c in self.caching:
-            tag = ("d", c) if self.items[c]["kind"] == "dist" else ("c", c)
+            tag = ("d", c) if self.items[c]["kind"] in ("dist", "tdist") else ("c", c)
             n = calls.get(tag, 0)
             if n > 1:
                 problems.append(("O4-twice", f"item {c} evaluated {n} times in one operation"))
@@ -269,7 +279,7 @@ class Machine:
                         problems.append(("O1-stale", f"node {n.name} reports up-to-date but holds {val} != from-scratch {ref[i]}"))
         tot = {"_model_log_prob": programs.Sym(), "_model_log_lik": programs.Sym(), "_model_log_prior": programs.Sym()}
         for i, it in enumerate(self.items):
-            if it["kind"] == "dist":
+            if it["kind"] in ("dist", "tdist"):
                 tot["_model_log_prob"] += ref[i]
                 if self.flags[i] == "observed":
                     tot["_model_log_lik"] += ref[i]
@@ -292,7 +302,7 @@ class Machine:
                 need = set()
                 if t.startswith("_model_log"):
                     for i, it in enumerate(self.items):
-                        if it["kind"] == "dist" and (t == "_model_log_prob" or (t == "_model_log_lik" and self.flags[i] == "observed") or (t == "_model_log_prior" and self.flags[i] == "parameter")):
+                        if it["kind"] in ("dist", "tdist") and (t == "_model_log_prob" or (t == "_model_log_lik" and self.flags[i] == "observed") or (t == "_model_log_prior" and self.flags[i] == "parameter")):
                             need |= self.anc_items[i]
                     nodes = [m.nodes[t]]
                 else:
